@@ -58,3 +58,25 @@ func loadReplayHist(path string) *histCase {
 	must(json.Unmarshal(b, hc))
 	return hc
 }
+
+// loadReplayInto reads `{"replay": X}` (or a bare X, or {"replay":{"case":X}}) into v.
+func loadReplayInto(path string, v any) {
+	b, err := os.ReadFile(path)
+	must(err)
+	var wrap struct {
+		Replay json.RawMessage `json:"replay"`
+	}
+	if json.Unmarshal(b, &wrap) == nil && len(wrap.Replay) > 0 {
+		var inner struct {
+			Case  json.RawMessage `json:"case"`
+			Index *int            `json:"index"`
+		}
+		if json.Unmarshal(wrap.Replay, &inner) == nil && len(inner.Case) > 0 && inner.Index != nil {
+			must(json.Unmarshal(inner.Case, v))
+			return
+		}
+		must(json.Unmarshal(wrap.Replay, v))
+		return
+	}
+	must(json.Unmarshal(b, v))
+}
